@@ -40,6 +40,11 @@ def mkd(x):
     return {"k": x, "l": [x, x + 2]}
 
 
+def mkx(x):
+    """a result with unusual but legal keys: an int key, negative positions in a list"""
+    return {1: x + 1, "k": [x, x + 1, x + 2], -1: "minus"}
+
+
 def ident(x):
     return x
 
@@ -57,7 +62,7 @@ def boom(x):
     raise ValueError(f"boom {x}")
 
 
-LIB = {"strf": strf, "nonef": nonef, "k0": k0, "inc": inc, "add": add, "pair": pair, "pair_u": pair, "mkd": mkd, "ident": ident, "boom": boom}
+LIB = {"strf": strf, "nonef": nonef, "k0": k0, "inc": inc, "add": add, "pair": pair, "pair_u": pair, "mkd": mkd, "mkx": mkx, "ident": ident, "boom": boom}
 UNPACK = {"pair_u": 2}
 SETUP_FNS = {"sk0": k0, "sinc": inc}  # setup variants (decorated with setup=True)
 LIB.update(SETUP_FNS)
